@@ -538,6 +538,7 @@ CtorClause(m, ev) ==
 FuzzClause(m, ev) ==
   IF ev.outcome = "timeout" THEN "hang"
   ELSE IF ev.outcome = "other" THEN "non-ValueError-" \o ev.cls
+  ELSE IF ev.refuse /\ ev.outcome = "obj" THEN "impossible-date-time-admitted"
   \* (a returned point whose year lies outside the model's range cannot be evaluated and is not judged)
   ELSE IF ev.outcome = "obj" /\ ev.isq /\ YearInModel(ev.q.y) /\ ~ValidTP(m, ev.q) THEN "returned-invalid-time-point"
   ELSE "ok"
